@@ -742,8 +742,7 @@ class CallMixin:
         lst = self.comprehension(fr, node, 'list')
         if isinstance(lst, STuple):
             lst = self.as_seq(lst)
-        v = z3.Const('v!set', Val)
-        return SSet(z3.Lambda([v], z3.Contains(lst.t, z3.Unit(v))), src=lst)
+        return SSet(self.setof(lst.t), src=lst)
 
     def sorted_model(self, fr, seq, keyf, reverse, node):
         """sorted(seq, key=f): a stable sorted permutation (witness functions perm / inv)"""
